@@ -235,56 +235,103 @@ def rule_r4(ctx) -> RuleResult:
     body_if = [s for s in fn.body if isinstance(s, ast.If) and unparse(s.test) == "data is None"]
     if len(body_if) != 1:
         raise AnalysisError("lua_loader: `if data is None` block vanished")
+    mod_tree = ctx.index.mod("luaexec").tree
+
+    def const_table(name: str):
+        """[(pattern, repl)] for a module-level list/tuple of (re.compile(<const>) | <const>, <const>) pairs"""
+        for st in mod_tree.body:
+            tg = st.targets[0] if isinstance(st, ast.Assign) and len(st.targets) == 1 else st.target if isinstance(st, ast.AnnAssign) else None
+            if isinstance(tg, ast.Name) and tg.id == name and isinstance(getattr(st, "value", None), (ast.List, ast.Tuple)):
+                out = []
+                for el in st.value.elts:
+                    if not (isinstance(el, ast.Tuple) and len(el.elts) == 2 and isinstance(el.elts[1], ast.Constant)):
+                        return None
+                    p0 = el.elts[0]
+                    if isinstance(p0, ast.Call) and unparse(p0.func) == "re.compile" and p0.args and isinstance(p0.args[0], ast.Constant):
+                        out.append((p0.args[0].value, el.elts[1].value))
+                    elif isinstance(p0, ast.Constant):
+                        out.append((p0.value, el.elts[1].value))
+                    else:
+                        return None
+                return out
+        return None
+
+    def steps_of(e: ast.AST) -> list:
+        """flatten an expression over `path` into the ordered list of string operations it applies"""
+        if isinstance(e, ast.Name):
+            if e.id in ("path", "modname"):
+                return []
+            raise AnalysisError("lua_loader: path built from `{}` (inconclusive)".format(e.id))
+        if isinstance(e, ast.Call) and unparse(e.func) == "re.sub" and len(e.args) == 3 and isinstance(e.args[0], ast.Constant) \
+                and isinstance(e.args[1], ast.Constant):
+            return steps_of(e.args[2]) + [("sub", e.args[0].value, e.args[1].value)]
+        if isinstance(e, ast.Call) and isinstance(e.func, ast.Attribute) and e.func.attr == "replace" and len(e.args) == 2 \
+                and all(isinstance(a_, ast.Constant) for a_ in e.args):
+            return steps_of(e.func.value) + [("replace", e.args[0].value, e.args[1].value)]
+        if isinstance(e, ast.Call) and isinstance(e.func, ast.Attribute) and e.func.attr in ("lstrip", "strip") and e.args \
+                and isinstance(e.args[0], ast.Constant):
+            return steps_of(e.func.value) + [(e.func.attr, e.args[0].value, None)]
+        if isinstance(e, ast.BinOp) and isinstance(e.op, ast.Add) and isinstance(e.right, ast.Constant):
+            return steps_of(e.left) + [("suffix", e.right.value, None)]
+        raise AnalysisError("lua_loader: unrecognised sanitising expression {} (inconclusive)".format(unparse(e)[:60]))
+
+    ops = []
     for s in body_if[0].body:
         if isinstance(s, ast.Assign) and unparse(s.targets[0]) == "path":
-            v = s.value
-            if isinstance(v, ast.Name):
-                continue
-            if isinstance(v, ast.Call) and unparse(v.func) == "re.sub" and isinstance(v.args[0], ast.Constant) and isinstance(v.args[1], ast.Constant) \
-                    and unparse(v.args[2]) == "path":
-                pat, rep = v.args[0].value, v.args[1].value
-                seen_ops.append("sub({!r}, {!r})".format(pat, rep))
-                if pat == r"[\0-\037]" and rep == "":
-                    st["ctrl"] = False
-                    # deleting characters can join what was apart: ".\x01." becomes "..", "/\x01/" becomes "//",
-                    # "\x01/x" becomes "/x" -- every structural fact established so far is void again
-                    st["dotdot"] = True
-                    st["double_slash"] = True
-                    st["leading_slash"] = True
-                elif pat in (r"//+", r"/{2,}") and rep == "/":
-                    st["double_slash"] = False
-                elif pat in (r"\.\.+", r"\.{2,}") and rep in (".", ""):
-                    st["dotdot"] = False
-                elif pat in (r"^//+", r"^/{2,}") and rep == "":
-                    # removes a leading run of two or more slashes only
-                    if st["double_slash"]:
-                        pass  # a leading "//" run is removed, but "/x" keeps its slash
-                    # a single leading slash survives in every case
-                elif pat in (r"^/+", r"^/*", r"\A/+") and rep == "":
-                    st["leading_slash"] = False
-                else:
-                    raise AnalysisError("lua_loader: unrecognised sanitising step re.sub({!r}, {!r}) (inconclusive)".format(pat, rep))
-            elif isinstance(v, ast.Call) and unparse(v.func) == "path.replace" and all(isinstance(a, ast.Constant) for a in v.args):
-                a, b = v.args[0].value, v.args[1].value
-                seen_ops.append("replace({!r}, {!r})".format(a, b))
-                if "/" in b:
-                    st["leading_slash"] = True
-                    st["double_slash"] = True
-                if ".." in b or b == ".":
-                    st["dotdot"] = True
-            elif isinstance(v, ast.Call) and unparse(v.func) in ("path.lstrip", "path.strip") and v.args and isinstance(v.args[0], ast.Constant) \
-                    and "/" in v.args[0].value:
-                seen_ops.append(unparse(v))
-                st["leading_slash"] = False
-            else:
-                raise AnalysisError("lua_loader: unrecognised assignment to path: {} (inconclusive)".format(unparse(s)))
+            ops.extend(steps_of(s.value))
         elif isinstance(s, ast.AugAssign) and unparse(s.target) == "path" and isinstance(s.value, ast.Constant):
-            seen_ops.append("+= {!r}".format(s.value.value))
-            if s.value.value == ".lua":
-                st["suffix_lua"] = True
+            ops.append(("suffix", s.value.value, None))
+        elif isinstance(s, ast.For) and isinstance(s.iter, ast.Name) and isinstance(s.target, ast.Tuple) and len(s.target.elts) == 2 \
+                and len(s.body) == 1 and isinstance(s.body[0], ast.Assign) and unparse(s.body[0].targets[0]) == "path":
+            tbl = const_table(s.iter.id)
+            v = s.body[0].value
+            pn, rn = unparse(s.target.elts[0]), unparse(s.target.elts[1])
+            shape_sub = isinstance(v, ast.Call) and ((unparse(v.func) == pn + ".sub" and [unparse(x) for x in v.args] == [rn, "path"])
+                                                     or (unparse(v.func) == "re.sub" and [unparse(x) for x in v.args] == [pn, rn, "path"]))
+            if tbl is None or not shape_sub:
+                raise AnalysisError("lua_loader: table-driven sanitiser outside the supported fragment (inconclusive)")
+            ops.extend(("sub", p_, r_) for p_, r_ in tbl)
         elif isinstance(s, ast.If) and "path" in unparse(s) and any(isinstance(x, (ast.AugAssign, ast.Assign)) and "path" in unparse(x) for x in ast.walk(s)):
             seen_ops.append("conditional: " + unparse(s.test))
-            # a conditional suffix is not a guarantee
+            # a conditional step is not a guarantee
+    for kind, a1, a2 in ops:
+        if kind == "sub":
+            pat, rep = a1, a2
+            seen_ops.append("sub({!r}, {!r})".format(pat, rep))
+            if pat == r"[\0-\037]" and rep == "":
+                st["ctrl"] = False
+                # deleting characters can join what was apart: ".\x01." becomes "..", "/\x01/" becomes "//",
+                # "\x01/x" becomes "/x" -- every structural fact established so far is void again
+                st["dotdot"] = True
+                st["double_slash"] = True
+                st["leading_slash"] = True
+            elif pat in (r"//+", r"/{2,}") and rep == "/":
+                st["double_slash"] = False
+            elif pat in (r"\.\.+", r"\.{2,}") and rep in (".", ""):
+                st["dotdot"] = False
+            elif pat in (r"^//+", r"^/{2,}") and rep == "":
+                pass  # a single leading slash survives in every case
+            elif pat in (r"^/+", r"^/*", r"\A/+") and rep == "":
+                st["leading_slash"] = False
+            else:
+                raise AnalysisError("lua_loader: unrecognised sanitising step re.sub({!r}, {!r}) (inconclusive)".format(pat, rep))
+        elif kind == "replace":
+            seen_ops.append("replace({!r}, {!r})".format(a1, a2))
+            if "/" in a2:
+                st["leading_slash"] = True
+                st["double_slash"] = True
+            if ".." in a2 or a2 == ".":
+                st["dotdot"] = True
+            if a2 == "" and a1 not in ("/", "."):
+                st["dotdot"] = st["double_slash"] = st["leading_slash"] = True  # a deletion, as above
+        elif kind in ("lstrip", "strip"):
+            seen_ops.append("{}({!r})".format(kind, a1))
+            if "/" in a1:
+                st["leading_slash"] = False
+        elif kind == "suffix":
+            seen_ops.append("+= {!r}".format(a1))
+            if a1 == ".lua":
+                st["suffix_lua"] = True
     rr.instances["sanitising_steps"] = seen_ops
     checks = [
         ("leading_slash", False, "after sanitising, the path can still start with `/`: `LUA_DIR / prefix / path` with an absolute right operand discards "
@@ -417,5 +464,19 @@ def rule_r6(ctx) -> RuleResult:
     return rr
 
 
+def rule_r7(ctx) -> RuleResult:
+    """A Python exception raised inside a callback reaches a module's pcall as the error value, and
+    the public attributes of the exception object pass the attribute filter.  AttributeError carries
+    `.obj`, the object the lookup failed on: an unassigned __slots__ attribute of the context turns
+    into a reference to the Wtp itself (db_conn, add_page ...).  Necessary condition checked here:
+    no constructor path leaves a slot unassigned (shared with C05.R9)."""
+    from ..core.report import shared
+    from . import c05
+
+    return shared(c05.rule_r9(ctx), "C06.R7", "no context attribute can be missing (AttributeError.obj would hand the context to Lua; shared with C05.R9)",
+                  "a module that wraps the failing call in pcall receives the exception object, whose .obj is the processing context",
+                  min_instances=3)
+
+
 def run(ctx) -> list:
-    return [rule_r1(ctx), rule_r2(ctx), rule_r3(ctx), rule_r4(ctx), rule_r5(ctx), rule_r6(ctx)]
+    return [rule_r1(ctx), rule_r2(ctx), rule_r3(ctx), rule_r4(ctx), rule_r5(ctx), rule_r6(ctx), rule_r7(ctx)]
